@@ -231,12 +231,19 @@ func budgetOf(c *Case) int64 {
 	return defaultBudget
 }
 
+// lastOverrun describes the most recent budget overrun (steps or call depth) for failure details.
+var lastOverrun string
+
 // guarded runs f under the current simulated run, converting panics into observations.
 func guarded(f func()) (panicMsg string, overrun bool) {
 	defer func() {
 		if r := recover(); r != nil {
-			if _, ok := r.(simrt.BudgetExceeded); ok {
+			if be, ok := r.(simrt.BudgetExceeded); ok {
 				overrun = true
+				lastOverrun = fmt.Sprintf("more than %d logical steps", be.Steps-1)
+				if be.Depth > 0 {
+					lastOverrun = fmt.Sprintf("call depth %d of instrumented functions (unbounded recursion)", be.Depth)
+				}
 				return
 			}
 			if ie, ok := r.(infraError); ok {
